@@ -55,6 +55,7 @@ int main(int argc, char **argv) {
             else if (!strcmp(tok[0], "bstr")) ok = op_bstr(nt - 1, tok + 1);
             else if (!strcmp(tok[0], "num")) ok = op_num(nt - 1, tok + 1);
             else if (!strcmp(tok[0], "fn")) ok = op_fn(nt - 1, tok + 1);
+            else if (!strcmp(tok[0], "urlenc")) ok = op_urlenc(nt - 1, tok + 1);
         }
         if (!ok) printf("bad-op");
         fputc('\n', stdout);
